@@ -31,7 +31,7 @@ func (r *Rand) Intn(n int) int {
 	}
 	return int(r.U64() % uint64(n))
 }
-func (r *Rand) Bool() bool       { return r.U64()&1 == 1 }
+func (r *Rand) Bool() bool        { return r.U64()&1 == 1 }
 func (r *Rand) Chance(p int) bool { return r.Intn(100) < p }
 func (r *Rand) Pick(xs []string) string {
 	return xs[r.Intn(len(xs))]
@@ -46,8 +46,8 @@ func (r *Rand) Bytes(n int) []byte {
 
 // ---------------------------------------------------------------- Coq terms
 
-func N(v uint64) string   { return fmt.Sprintf("%d%%N", v) }
-func Nat(v int) string    { return fmt.Sprintf("%d", v) }
+func N(v uint64) string { return fmt.Sprintf("%d%%N", v) }
+func Nat(v int) string  { return fmt.Sprintf("%d", v) }
 func Z(v int64) string {
 	if v < 0 {
 		return fmt.Sprintf("(%d)%%Z", v)
@@ -110,9 +110,9 @@ func (s *Summary) Sample(v interface{}) {
 // Distinct counts distinct non-trivial signatures.
 type Distinct struct{ m map[string]struct{} }
 
-func NewDistinct() *Distinct           { return &Distinct{m: map[string]struct{}{}} }
-func (d *Distinct) Add(sig string)     { d.m[sig] = struct{}{} }
-func (d *Distinct) Len() int           { return len(d.m) }
+func NewDistinct() *Distinct       { return &Distinct{m: map[string]struct{}{}} }
+func (d *Distinct) Add(sig string) { d.m[sig] = struct{}{} }
+func (d *Distinct) Len() int       { return len(d.m) }
 func (d *Distinct) Keys() []string {
 	k := make([]string, 0, len(d.m))
 	for x := range d.m {
